@@ -12,6 +12,12 @@ What the interleaving model (Model/Threads.lean) hard-wires and this translator 
     inside that block, and nothing is put back into `self._q`;
   * the session wrapper is built inside `_send_ipmi_msg` (`IpmiMsg(self._session)` … `.pack(...)`), i.e.
     under the lock, and `IpmiMsg.pack` bumps the session sequence number exactly once, when activated;
+  * the lock block ends with the retry loop `retry = 0; while retry <= self.max_retries: try: <transmit>; … inner
+    receive loop (received_retry) …; break; except socket.timeout: retry += 1`; WHERE the session wrapper is built
+    relative to that loop is the model's third variant (`packPerAttempt`: the transmission inside the loop is
+    `self._send_ipmi_msg(<one argument>)` and `_send_ipmi_msg` builds the wrapper unconditionally, nothing before the
+    loop builds one - so every retransmission takes the next session sequence number; `false` when a wrapper built
+    before the loop is handed to the transmission: the retransmission then repeats the number);
   * `Session.increment_sequence_number` is `+= 1; if > 0xffffffff: = 1`;
   * the keep-alive callable handed to `call_repeatedly` reaches `_send_and_receive` (so it takes the
     lock), as do `send_and_receive` and `send_and_receive_raw`;
@@ -139,10 +145,21 @@ def analyse():
     f['packInSar'] = sum(1 for n in ast.walk(sar) if isinstance(n, ast.Call) and isinstance(n.func, ast.Attribute)
                          and n.func.attr == 'pack')
     sim = _meth(rmcp, '_send_ipmi_msg')
-    f['packInSend'] = 0 if sim is None else sum(
-        1 for n in ast.walk(sim) if isinstance(n, ast.Call) and isinstance(n.func, ast.Attribute) and n.func.attr == 'pack')
-    f['sendBuildsIpmiMsg'] = bool(sim is not None and any(
-        isinstance(n, ast.Call) and isinstance(n.func, ast.Name) and n.func.id == 'IpmiMsg' for n in ast.walk(sim)))
+
+    def packs(node):
+        return sum(1 for n in ast.walk(node) if isinstance(n, ast.Call) and isinstance(n.func, ast.Attribute)
+                   and n.func.attr == 'pack')
+
+    def builds(node):
+        return any(isinstance(n, ast.Call) and isinstance(n.func, ast.Name) and n.func.id == 'IpmiMsg'
+                   for n in ast.walk(node))
+    # helper methods that build the session wrapper: `IpmiMsg(...)` and `.pack(` in their own body
+    packers = set(m.name for m in rmcp.body if isinstance(m, ast.FunctionDef) and m.name != '_send_ipmi_msg'
+                  and builds(m) and packs(m) > 0)
+    helper_calls = [] if sim is None else [c for c in _self_calls(sim) if c in packers]
+    f['packInSend'] = 0 if sim is None else packs(sim) + sum(packs(_meth(rmcp, c)) for c in helper_calls)
+    f['sendBuildsIpmiMsg'] = bool(sim is not None and (builds(sim) or bool(helper_calls)))
+    analyse_retry_loop(rmcp, sar, inside, sim, packers, f)
     # IpmiMsg.pack bumps the session sequence number once, guarded by `activated`
     pk = _meth(ipmimsg, 'pack')
     incs = [] if pk is None else [n for n in ast.walk(pk) if isinstance(n, ast.Call) and isinstance(n.func, ast.Attribute)
@@ -197,6 +214,83 @@ def analyse():
 
 def _is_name(n, name):
     return isinstance(n, ast.Name) and n.id == name
+
+
+def analyse_retry_loop(rmcp, sar, inside, sim, packers, f):
+    """The retry loop at the end of the lock block, and where the session wrapper is built relative to it."""
+    f['retryLoop'], f['packBeforeLoop'], f['packPerAttempt'] = False, 0, False
+    f['packText'] = '?'
+    body = list(getattr(inside, 'body', []))
+
+    def is_budget(t, name):
+        return isinstance(t, ast.Compare) and _is_name(t.left, name) and len(t.ops) == 1 \
+            and isinstance(t.ops[0], ast.LtE) and _is_self_attr(t.comparators[0], 'max_retries')
+
+    def is_zero(st, name):
+        return isinstance(st, ast.Assign) and len(st.targets) == 1 and _is_name(st.targets[0], name) \
+            and isinstance(st.value, ast.Constant) and st.value.value == 0 and st.value.value is not False
+
+    def is_incr(st, name):
+        return isinstance(st, ast.AugAssign) and isinstance(st.op, ast.Add) and _is_name(st.target, name) \
+            and isinstance(st.value, ast.Constant) and st.value.value == 1
+
+    loops = [i for i, st in enumerate(body) if isinstance(st, ast.While)]
+    if len(loops) != 1 or loops[0] != len(body) - 1 or loops[0] == 0:
+        return
+    loop, before = body[-1], body[:-1]
+    ok = is_budget(loop.test, 'retry') and not loop.orelse and is_zero(before[-1], 'retry') \
+        and len(loop.body) == 1 and isinstance(loop.body[0], ast.Try)
+    send_call = None
+    if ok:
+        tr = loop.body[0]
+        hs = tr.handlers
+        ok = not tr.orelse and not tr.finalbody and len(hs) == 1 and isinstance(hs[0].type, ast.Attribute) \
+            and hs[0].type.attr == 'timeout' and _is_name(hs[0].type.value, 'socket') \
+            and len(hs[0].body) == 1 and is_incr(hs[0].body[0], 'retry')
+        tb = tr.body
+        if ok and len(tb) >= 4 and isinstance(tb[0], ast.Expr) and isinstance(tb[0].value, ast.Call) \
+                and _is_self_attr(tb[0].value.func, '_send_ipmi_msg'):
+            send_call = tb[0].value
+        else:
+            ok = False
+    if ok:
+        inner = [st for st in tb if isinstance(st, ast.While)]
+        io_calls = lambda node: _self_calls(node).count('_receive_ipmi_msg') + _q_calls(node, 'get')  # noqa
+        ok = len(inner) == 1 and not inner[0].orelse and isinstance(inner[0].test, ast.BoolOp) \
+            and isinstance(inner[0].test.op, ast.And) and len(inner[0].test.values) == 2 \
+            and is_budget(inner[0].test.values[1], 'received_retry') \
+            and any(is_incr(n, 'received_retry') for n in ast.walk(inner[0])) \
+            and any(is_zero(st, 'received_retry') for st in tb[1:tb.index(inner[0])]) \
+            and io_calls(inner[0]) == io_calls(sar) and io_calls(inner[0]) > 0 \
+            and _self_calls(sar).count('_send_ipmi_msg') == 1 \
+            and isinstance(tb[-1], ast.Break) and isinstance(tb[-2], ast.If) and not tb[-2].orelse \
+            and len(tb[-2].body) == 1 and isinstance(tb[-2].body[0], ast.Raise) \
+            and tb.index(inner[0]) == len(tb) - 3 \
+            and not any(isinstance(n, (ast.Break, ast.Return)) for n in ast.walk(inner[0]))
+    f['retryLoop'] = bool(ok)
+    # session wrappers built before the loop (inside the lock block): calls of a packing helper / of
+    # _send_ipmi_msg, or a direct IpmiMsg(...).pack(...)
+    pre = ast.Module(body=before, type_ignores=[])
+    f['packBeforeLoop'] = sum(1 for c in _self_calls(pre) if c in packers or c == '_send_ipmi_msg') \
+        + sum(1 for n in ast.walk(pre) if isinstance(n, ast.Call) and isinstance(n.func, ast.Name) and n.func.id == 'IpmiMsg')
+    # does the transmission of every attempt build the wrapper itself, unconditionally?
+    uncond = False
+    if sim is not None:
+        top = [st for st in sim.body]
+        flat = ast.Module(body=[st for st in top if not isinstance(st, (ast.If, ast.Try, ast.While, ast.For, ast.With))],
+                          type_ignores=[])
+        direct = any(isinstance(n, ast.Call) and isinstance(n.func, ast.Name) and n.func.id == 'IpmiMsg'
+                     for n in ast.walk(flat)) and any(
+            isinstance(n, ast.Call) and isinstance(n.func, ast.Attribute) and n.func.attr == 'pack' for n in ast.walk(flat))
+        via = any(c in packers for c in _self_calls(flat))
+        uncond = direct or via
+    one_arg = bool(send_call is not None and len(send_call.args) == 1 and not send_call.keywords
+                   and len(sim.args.args) == 2 and not sim.args.defaults and sim.args.vararg is None
+                   and sim.args.kwarg is None) if sim is not None else False
+    f['packPerAttempt'] = bool(ok and uncond and one_arg and f['packBeforeLoop'] == 0)
+    f['packText'] = ('by the transmission of every attempt' if f['packPerAttempt'] else
+                     'before the retry loop (%d), transmission %s' % (
+                         f['packBeforeLoop'], 'packs unconditionally' if uncond else 'is handed / may reuse a stored datagram'))
 
 
 def _method_call_on(node, obj, meth):
@@ -371,20 +465,22 @@ namespace PyIpmi.Gen.Threads
 open PyIpmi.Threads
 
 /-- keep-alive callable installed by establish_session: %s;  stopper returned by call_repeatedly: %s;
-mentions of next_sequence_number / _inc_sequence_number outside the lock block of _send_and_receive: %d -/
+mentions of next_sequence_number / _inc_sequence_number outside the lock block of _send_and_receive: %d;
+session wrapper built: %s -/
 def shape : Shape :=
   { lockBlocks := %d, incFirst := %s, seqInLock := %s, incCalls := %d, ioOutsideLock := %d, sendsInLock := %d, recvsInLock := %d,
-    qGetInLock := %d, qPut := %d, packInSar := %d, packInSend := %d, sendBuildsIpmiMsg := %s, packIncs := %d,
+    qGetInLock := %d, qPut := %d, packInSar := %d, packInSend := %d, sendBuildsIpmiMsg := %s,
+    retryLoop := %s, packBeforeLoop := %d, packPerAttempt := %s, packIncs := %d,
     packIncGuardedByActivated := %s, seqAdd := %d, seqMod := %d, keepAliveLocked := %s, rawLocked := %s,
     msgLocked := %s, sessAdd := %d, sessLimit := %d, sessWrapTo := %d,
     loopWaitsThenCalls := %s, loopSwallowsOnlyTimeout := %s, stopperSets := %s, stopperJoins := %s,
     closeStopsFirst := %s, closeChecksActivated := %s, closeLocked := %s, closeDeactivatesLast := %s }
 
 end PyIpmi.Gen.Threads
-''' % (f['keepAliveName'], f['stopperText'], f['seqOutsideLock'], f['lockBlocks'], _b(f['incFirst']), _b(f['seqInLock']),
+''' % (f['keepAliveName'], f['stopperText'], f['seqOutsideLock'], f['packText'], f['lockBlocks'], _b(f['incFirst']), _b(f['seqInLock']),
        f['incCalls'], f['ioOutsideLock'], f['sendsInLock'],
        f['recvsInLock'], f['qGetInLock'], f['qPut'], f['packInSar'], f['packInSend'], _b(f['sendBuildsIpmiMsg']),
-       f['packIncs'], _b(f['packIncGuardedByActivated']), int(f['seqAdd']), int(f['seqMod']), _b(f['keepAliveLocked']),
+       _b(f['retryLoop']), f['packBeforeLoop'], _b(f['packPerAttempt']), f['packIncs'], _b(f['packIncGuardedByActivated']), int(f['seqAdd']), int(f['seqMod']), _b(f['keepAliveLocked']),
        _b(f['rawLocked']), _b(f['msgLocked']), int(f['sessAdd']), int(f['sessLimit']), int(f['sessWrapTo']),
        _b(f['loopWaitsThenCalls']), _b(f['loopSwallowsOnlyTimeout']), _b(f['stopperSets']), _b(f['stopperJoins']),
        _b(f['closeStopsFirst']), _b(f['closeChecksActivated']), _b(f['closeLocked']), _b(f['closeDeactivatesLast']))
